@@ -215,7 +215,7 @@ impl<'a> LoweringManager<'a> {
       }
       mir::Statement::Break(e) => vec![lir::Statement::Break(self.lower_expression(e))],
       mir::Statement::While { loop_variables, statements, break_collector } => {
-        let loop_variables = loop_variables
+        let mut loop_variables = loop_variables
           .into_iter()
           .map(|mir::GenenalLoopVariable { name, type_, initial_value, loop_value }| {
             lir::GenenalLoopVariable {
@@ -226,7 +226,25 @@ impl<'a> LoweringManager<'a> {
             }
           })
           .collect_vec();
-        let statements = self.lower_stmt_block(statements);
+        let mut statements = self.lower_stmt_block(statements);
+        // Loop variables are updated simultaneously, but the backends assign them one by one.
+        // A new value that is another loop variable must therefore be read before the updates.
+        let loop_variable_names =
+          loop_variables.iter().map(|it| it.name).collect::<std::collections::HashSet<_>>();
+        for loop_variable in loop_variables.iter_mut() {
+          if let lir::Expression::Variable(n, t) = &loop_variable.loop_value
+            && *n != loop_variable.name
+            && loop_variable_names.contains(n)
+          {
+            let temp = self.heap.alloc_temp_str();
+            statements.push(lir::Statement::Cast {
+              name: temp,
+              type_: loop_variable.type_.clone(),
+              assigned_expression: lir::Expression::Variable(*n, t.clone()),
+            });
+            loop_variable.loop_value = lir::Expression::Variable(temp, loop_variable.type_.clone());
+          }
+        }
         let break_collector = if let Some(mir::VariableName { name, type_ }) = break_collector {
           Some((name, self.lower_type(type_)))
         } else {
